@@ -158,8 +158,8 @@ def dispatch_oracle(ix: Index, scn: dict) -> list[Violation]:
                     if name == "DisconnectRequest":
                         cur["in_cb_close"] = True
                 continue
-            if d["state"] not in ("CONNECTED",):
-                continue
+            if d["state"] != "CONNECTED" and not (d["state"] == "HANDSHAKE_COMPLETE" and name is not None and any(name in ts for ts in active.values())):
+                continue  # (a subscriber registered between the connect phases is served during the hello exchange too)
             if name is None:
                 cur = {"kind": "unknown", "type": mtype, "name": None}
             else:
@@ -237,6 +237,18 @@ def dispatch_oracle(ix: Index, scn: dict) -> list[Violation]:
             m.ParseFromString(seen[i][1])
             if abs(m.epoch_seconds - val) > 1:
                 out.append(Violation("wrong-time", "", f"GetTimeResponse carries {m.epoch_seconds}, current (virtual) time is {val}"))
+    # the peer's disconnect request takes effect at once: answered and closed in the turn it is delivered, whatever else is
+    # going on (an own graceful disconnect still waiting for its answer included)
+    for name, val, seq in expected_replies:
+        if name == "DisconnectResponse" and ix.conns:
+            c0 = ix.conns[0]
+            cs = ix.closed_seq.get(c0)
+            if cs is not None and cs < seq:
+                continue
+            raised = any(ev[3] == "cb_raise" and ev[1] == ix.seq_turn[seq] for ev in ix.h)
+            if (cs is None or ix.seq_turn[cs] > ix.seq_turn[seq]) and not raised:
+                out.append(Violation("disconnect-request-late-close", "", f"the device's DisconnectRequest was delivered at turn {ix.seq_turn[seq]} but the connection " + ("never closed" if cs is None else f"closed only at turn {ix.seq_turn[cs]}")))
+                break
     # disconnect request: response first, then an expected close
     for name, val, seq in expected_replies:
         if name == "DisconnectResponse" and (closed is None or seq < closed):
@@ -296,7 +308,9 @@ def gen_dispatch(rng: random.Random) -> dict:
                 # it get a stream that is cut short, never one with a hole
                 beh.append({"on_call": n, "do": "raise"})
             else:
-                beh.append({"on_call": n, "do": "add", "new": {"sid": sid + "x", "types": rng.sample(SUB_TYPES, rng.randint(1, 2))}})
+                # (half of the time for the very type(s) being delivered: the registration made during a delivery must not
+                # disturb it)
+                beh.append({"on_call": n, "do": "add", "new": {"sid": sid + "x", "types": list(types) if rng.random() < 0.5 else rng.sample(SUB_TYPES, rng.randint(1, 2))}})
         specs[sid] = (types, beh)
     t = 0.5
     order = list(sids)
